@@ -284,9 +284,13 @@ class Gen:
                         self.features.add("read-through-window")
                     continue
             terms.append(rng.choice(["1.0", "2.0", "0.5"]))
+        # only sums and constant factors: products of cells would make the exact rationals of the
+        # reference interpreter grow exponentially inside loops (values are irrelevant for C03)
         out = terms[0]
         for t in terms[1:]:
-            out = f"{out} {rng.choice(['+', '*'])} {t}"
+            out = f"{out} + {t}"
+        if rng.random() < 0.3:
+            out = f"0.5 * ({out})"
         if rng.random() < 0.1:
             out = f"relu({out})"
         return out
